@@ -36,16 +36,18 @@ def findings_table():
 
 def seeded_table():
     rows = ["| seeded id | property | result with our check |", "|---|---|---|"]
-    n = missed = 0
+    n = missed = still = 0
     for d in sorted(glob.glob(os.path.join(V, "seeded", "*", "meta.json"))):
         m = json.load(open(d))
         n += 1
         if m["our_check"].startswith("MISSED"):
             missed += 1
-        rows.append("| %s | %s | %s |" % (m["id"], m["breaks_property"], cell(m["our_check"], 420)))
+            if "now caught" not in m["our_check"]:
+                still += 1
+        rows.append("| %s | %s | %s |" % (m["id"], m["breaks_property"], cell(m["our_check"], 520)))
     head = ("%d changes confirmed (demo fails with the change, passes without; existing suite green with the change). "
-            "%d were caught by the quick tier as registered at the time; %d were missed at first and led to strengthening "
-            "(the entry says what was added); all %d are caught now.\n\n" % (n, n - missed, missed, n))
+            "%d were caught by the check as registered at the time; %d were missed at first and led to strengthening "
+            "(the entry says what was added); %d of those are still open (work in progress named in the entry).\n\n" % (n, n - missed, missed, still))
     return head + "\n".join(rows)
 
 GEN = {"status": status_table, "findings": findings_table, "seeded": seeded_table}
